@@ -75,6 +75,8 @@ func main() {
 		runAcceptSuite(*seed, *n, out, stats)
 	case "place":
 		runPlaceSuite(*seed, *n, out, stats)
+	case "sweep":
+		runSweepSuite(*seed, *n, out, stats)
 	case "wire":
 		runWireSuite(*seed, *n, out, stats)
 	case "forks":
